@@ -257,7 +257,10 @@ Proof.
   destruct (collect_args_core al a b [] H) as [C1 C2].
   destruct (collect_args a al []) as [a1 la]. destruct (collect_args b al []) as [b1 lb]. cbn [fst snd] in *. subst lb.
   destruct (ce_log_call a1 b1 (bs "cond") name la C1) as [L1 L2].
-  destruct (log_call a1 (bs "cond") name la). destruct (log_call b1 (bs "cond") name la). cbn [fst snd] in *. subst. auto.
+  destruct (log_call a1 (bs "cond") name la) as [a2 na]. destruct (log_call b1 (bs "cond") name la) as [b2 nb].
+  cbn [fst snd] in *. subst nb.
+  match goal with |- context [let '(_, _) := ?X in _] => destruct X as [bb ee] end.
+  cbn [fst snd]. split; [|reflexivity]. destruct ee; [apply ce_w_cerr|]; exact L1.
 Qed.
 
 (* ------------------------------------------------ drivers, for any rule semantics that respects core_eq *)
